@@ -8,6 +8,7 @@ import (
 	"strings"
 	"time"
 
+	"github.com/getlantern/goexpr"
 	"github.com/getlantern/zenodb/core"
 	"github.com/getlantern/zenodb/sql"
 )
@@ -107,6 +108,17 @@ func pushdownAllowed(opts *Opts, query *sql.Query) (bool, error) {
 		}
 	}
 
+	for sub := query.FromSubQuery; sub != nil; sub = sub.FromSubQuery {
+		if hasSubQueries(sub.Where) {
+			// The leader evaluates the IN-subqueries of the outermost WHERE on the
+			// whole cluster and hands the values to the partitions. Those of a
+			// FROM-subquery's WHERE would be evaluated by each partition on its own
+			// data only, which is a different (smaller) set of values.
+			log.Debugf("Pushdown not allowed because a FROM subquery filters by a subquery of its own: %v", sub.SQL)
+			return false, nil
+		}
+	}
+
 	parentGroupByAll := true
 	parentGroupParams := make(map[string]bool)
 	for current := query; current != nil; current = current.FromSubQuery {
@@ -193,6 +205,18 @@ func pushdownAllowed(opts *Opts, query *sql.Query) (bool, error) {
 	}
 
 	return false, fmt.Errorf("Should never reach this branch of pushdownAllowed")
+}
+
+func hasSubQueries(where goexpr.Expr) bool {
+	found := false
+	if where != nil {
+		where.WalkLists(func(list goexpr.List) {
+			if _, ok := list.(*sql.SubQuery); ok {
+				found = true
+			}
+		})
+	}
+	return found
 }
 
 func planClusterPushdown(opts *Opts, query *sql.Query) (core.FlatRowSource, error) {
